@@ -143,6 +143,7 @@ var c09HeavyOps = func() []struct{ name, text string } {
 var c09HeavyT = []int64{1, 50, 5000}
 
 type c09 struct {
+	drv    *c20drv
 	tier   string
 	shapes []Shape
 	twins  map[string]*c09Twin
@@ -156,7 +157,9 @@ type c09Twin struct {
 	prepErr string
 }
 
-func newC09() *c09 { return &c09{shapes: c09Catalogue(), twins: map[string]*c09Twin{}} }
+func newC09() *c09 {
+	return &c09{shapes: c09Catalogue(), twins: map[string]*c09Twin{}, drv: newC20drv()}
+}
 
 func (p *c09) ID() string { return "C09" }
 
@@ -180,6 +183,11 @@ func (p *c09) Enumerate(tier string) [][]int32 {
 	if tier == "thorough" {
 		for si := range p.shapes {
 			out = append(out, []int32{2, int32(si), int32(si % 2)})
+		}
+	}
+	for si := range p.shapes {
+		if si%7 == 0 || tier == "thorough" {
+			out = append(out, []int32{4, int32(si), int32(si % 4), int32(si % 2)})
 		}
 	}
 	for b := range c09HeavyBuild {
@@ -258,6 +266,62 @@ func (p *c09) realTimer(c *verifsim.Chooser, st *Stats, render bool) *Outcome {
 		}
 	}
 	o.violate("C09/real-timer-late", s.Family, "with a real 30 ms deadline Execute returned only after %v (twice)", last)
+	return o
+}
+
+// driverTimeout: the deadline as the command-line driver sets it up
+// (`evalfilter run -timeout d script`), in the simulated driver process (file
+// reads and the timer behind seams, everything else the driver's own code):
+// a script that is still running when d has passed on the simulated clock
+// must be stopped and reported.
+func (p *c09) driverTimeout(c *verifsim.Chooser, st *Stats, render bool) *Outcome {
+	o := &Outcome{}
+	if p.drv.sim == "" {
+		o.violate("C09/harness", "no-driver", "VERIF_DRIVER_SIM is not set")
+		return o
+	}
+	var s Shape
+	for tries := 0; ; tries++ {
+		s = p.shapes[c.Intn(len(p.shapes))]
+		if !strings.Contains(s.Family, "term-") && !strings.Contains(s.Family, "big-range") && !strings.Contains(s.Family, "single-instruction") || tries > 8 {
+			break
+		}
+	}
+	// the driver has no host functions: built-ins stand in for them
+	text := "m = 0; n = 0; x = 0; z = 0; q = 0;\n" + strings.NewReplacer("tick();", "q9 = len(\"t\");", "h(1);", "q9 = len(\"h\");").Replace(s.Text)
+	timeout := []string{"300us", "1ms", "2ms", "50us"}[c.Intn(4)]
+	args := []string{"run", "-timeout", timeout}
+	if c.Intn(2) == 1 {
+		args = append(args, "-no-optimizer")
+	}
+	args = append(args, "script.in")
+	currentDesc.Store("driver -timeout " + s.Family)
+	o.Digest.Str("drv" + text + strings.Join(args, " "))
+	sc := &scenario{Args: args, Files: map[string]*verifsim.SimFile{"script.in": {Data: []byte(text)}}, HardCap: 400000}
+	res := p.drv.spawn(p.drv.sim, sc, nil)
+	if render {
+		o.Sample = map[string]interface{}{"mode": "driver", "args": args, "script": text, "stdout": clip(res.stdout, 400), "exit": res.code, "stat": res.stat}
+	}
+	o.Nontrivial = true
+	st.fault("driver-timeout-flag")
+	family := "driver " + s.Family
+	switch {
+	case res.hung:
+		o.violate("C09/not-stopped", family, "`evalfilter %s` did not terminate (10 s of wall clock)", strings.Join(args, " "))
+	case res.stat == nil:
+		o.violate("C09/harness", "no-stat", "the simulated driver wrote no statistics (exit %d, stderr %s)", res.code, clip(res.stderr, 300))
+	default:
+		if hc, _ := res.stat["hitcap"].(bool); hc {
+			o.violate("C09/not-stopped", family, "`evalfilter %s`: the script was still running after 400000 instructions although the deadline had passed on the simulated clock", strings.Join(args, " "))
+		} else if ra, _ := res.stat["runaway"].(bool); ra {
+			o.violate("C09/not-stopped", family, "`evalfilter %s`: the script kept running for more than 65536 instructions after the deadline", strings.Join(args, " "))
+		} else if dur, _ := time.ParseDuration(timeout); toInt(res.stat["ticks"]) < int64(dur/time.Microsecond) {
+			// the script ended by itself before the deadline
+			st.probe("driver-script-ended-before-the-deadline")
+		} else if !strings.Contains(res.stdout, "timeout") && !strings.Contains(res.stdout, "deadline") && !strings.Contains(res.stdout, "maximum call depth") {
+			o.violate("C09/not-reported", family, "`evalfilter %s` ended without reporting the time-out: %s", strings.Join(args, " "), clip(res.stdout, 300))
+		}
+	}
 	return o
 }
 
@@ -390,6 +454,9 @@ func (p *c09) Run(c *verifsim.Chooser, st *Stats, render bool) *Outcome {
 	mode := c.Intn(64)
 	if mode == 3 || mode == 62 {
 		return p.heavy(c, st, render)
+	}
+	if mode == 4 || mode == 61 {
+		return p.driverTimeout(c, st, render)
 	}
 	if mode == 2 || mode == 63 {
 		if p.tier == "thorough" {
@@ -756,4 +823,11 @@ func runawayWalk(stack []string) string {
 	}
 	sortStrings(rec)
 	return "walk " + strings.Join(rec, " + ")
+}
+
+func toInt(v interface{}) int64 {
+	if f, ok := v.(float64); ok {
+		return int64(f)
+	}
+	return 0
 }
